@@ -1,6 +1,7 @@
 (* C04_Wire.v — wire glue for C04 (no proofs; exercised by the correspondence).
 
-   input    = cmp :: concat [op; a; b]       cmp: 0 ascending (a < b), otherwise descending (a > b)
+   input    = cmp :: concat [op; a; b]       cmp: 0 ascending (a < b), 2 / 3 ascending / descending over
+                                             EXTREME keys (below), anything else descending (a > b)
               op: 0 Upsert a b | 1 Delete a | 2 Get a | 3 Size | 4 Traverse   (unused fields are 0)
    observed = concat (per-op results) ++ [final Size] ++ final Traverse
               Upsert   -> [0]            ([2] if it panicked)
@@ -8,12 +9,39 @@
               Get      -> [0; key; val] | [1; 1]
               Size     -> [n]
               Traverse -> n :: k1 :: v1 :: ... :: kn :: vn     ([3] if the goroutine hung)
-   kept in step with harness/c04.go. *)
+   kept in step with harness/c04.go.
+
+   Extreme keys.  The model runner reads 63-bit integers, so MinInt64, MaxInt64
+   and +-2^62 cannot appear on the wire.  With cmp = 2 or 3 a wire key k in
+   0..4999 STANDS FOR the Go key [ext_key k] (five windows of 1000 consecutive
+   integers: around 0, up to MaxInt64, from MinInt64, around 2^62, around
+   -2^62).  The harness hands ext_key k to the real tree (ordered by < or > on
+   int) and maps the keys coming back through the inverse; this side runs the
+   model on the wire keys themselves under the comparator pulled back along
+   ext_key, which is the same tree up to renaming the keys because ext_key is
+   injective on 0..4999 (and the harness refuses other keys in these modes).
+   No Z.to_nat anywhere: the window is selected by matching k / 1000. *)
 
 From Gogu Require Import Base C04_Model.
 
+Definition ext_key (k : Z) : Z :=
+  if (0 <=? k) && (k <? 5000) then
+    match k / 1000 with
+    | 0 => k mod 1000 - 500                              (*  -500 .. 499            *)
+    | 1 => 9223372036854775807 - 999 + k mod 1000        (*  .. MaxInt64            *)
+    | 2 => -9223372036854775808 + k mod 1000             (*  MinInt64 ..            *)
+    | 3 => 4611686018427387904 - 500 + k mod 1000        (*  2^62-500 .. 2^62+499   *)
+    | _ => -4611686018427387904 - 500 + k mod 1000       (* -2^62-500 .. -2^62+499  *)
+    end
+  else k.
+
 Definition cmp_of (c : Z) : Z -> Z -> bool :=
-  match c with 0 => Z.ltb | _ => Z.gtb end.
+  match c with
+  | 0 => Z.ltb
+  | 2 => fun a b => Z.ltb (ext_key a) (ext_key b)
+  | 3 => fun a b => Z.gtb (ext_key a) (ext_key b)
+  | _ => Z.gtb
+  end.
 
 Definition zop := @op Z Z.
 Definition zout := @out Z Z.
@@ -80,8 +108,14 @@ Definition c04_spec (w : list Z) : list Z :=
 
 Definition c04_agree (w obs : list Z) : bool := zlist_eqb obs (c04_run w).
 
-(* The property determines every observable uniquely (the outputs of the
-   reference machine; C04_Props.C04_refines_map proves the repaired model
-   produces exactly these for every history), so the property holds on an
-   observation iff it is the reference machine's. *)
+(* The property determines every observable uniquely: the outputs of the
+   reference machine [run_map] (the comparator-sorted association list), so the
+   property holds on an observation iff it is the reference machine's.  This
+   judges against the SPECIFICATION, not the model: on a history with a Delete
+   of an absent key the model (= the code as it is) answers a smaller Size and
+   [c04_holds] is false there (C04_refines_map_refuted); such cases are
+   attributed to KF-C04-size-absent-delete by tools/matchers.d/c04.py only when
+   nothing but the Size answers deviates, by exactly the number of not-found
+   Deletes.  Everywhere else model and reference machine agree
+   (C04_refines_map_partial, C04_refines_map_no_absent_delete_partial). *)
 Definition c04_holds (w obs : list Z) : bool := zlist_eqb obs (c04_spec w).
